@@ -194,3 +194,32 @@ def run(ctx):
         "numbers judged exactly on the dyadic/power-of-ten subdomain and IEEE specials; inexact results are unjudged (tainted)",
         "results compared through GetBoolResult/GetNumResult/GetLiteralResult with default contexts (NewCtxFromCurrent)",
     ])
+
+
+PROPS = {"C01": run, "C02": run, "C03": run, "C05": run}
+
+# ---- MANIFEST entries (read by bin/mkmanifest) ----
+XP = ("TLA+ spec XPathValues/XPathAst/XPathMachine: TLC exhaustive model (machine = XPath meaning), TLC-generated behaviours "
+      "replayed on the real compiler/machine, per-instruction traces of every run validated by XPathTrace")
+MANIFEST = {
+ "C01": dict(text="TLC checks on every AST of the bounded families that the stack machine computes the XPath 1.0 value written from the "
+             "Recommendation (XPathValues.tla); every AST becomes a vector replayed on expr.NewExprMachine + Run and compared under the three "
+             "result accessors, and the hook trace of every run (state after each instruction) is validated step by step, so a wrong "
+             "operator, conversion or function is attributed to its instruction and operand classes. Deeper expressions are sampled by TLC "
+             "(RandomElement, seeded) and judged by the same oracle.",
+             note="number model exact on dyadic rationals, powers of ten and IEEE specials; inexact IEEE results are unjudged; data tree is the harness mock; "
+                  "node-set vs boolean comparisons unjudged (statement and XPath differ)", design="4 C01", technique=XP),
+ "C02": dict(text="The spec gives, for every supported location path (absolute/relative/current()/deref(), up-steps, predicates in every order, "
+             "nested operand paths), the exact sequence of data-tree requests XPath designates; TLC proves the fork's two-stack mechanism "
+             "(path stack, predicate key stack, both counters) issues exactly those on the bounded families; the real machine is replayed on a recording "
+             "tree and its per-instruction path-stack states are validated against the spec.",
+             note="forms outside the statement (positional predicates, unions, relative operand paths starting with a name, wildcards) are not generated", design="4 C02", technique=XP),
+ "C03": dict(text="For every chain of two and three binary operators (all 13x13 and 13^3 mixes, all tree shapes), unary minus at every operand "
+             "position and mixed operand kinds, the spec renders the AST with minimal and with full parentheses and three whitespace styles; the real "
+             "compiler must produce the identical program for all renderings (compared with each other) and the program Compile(ast) prescribes; results equal.",
+             note="whitespace is inserted only at token boundaries of the XPath token grammar", design="4 C03", technique=XP),
+ "C05": dict(text="TLC checks value-xor-error and fault faithfulness on the machine spec with every data-tree callback position failing; the real "
+             "machine is run with the k-th callback of the mock tree failing, for every k of every vector, and the trace validator requires the run to end "
+             "at the failing instruction with that error and no value. (Totality of compilation over byte strings: see the lexer family.)",
+             note="an error whose text still contains the tree's error counts as carrying it (Deref re-wraps FollowLeafRef errors)", design="4 C05", technique=XP),
+}
